@@ -11,13 +11,17 @@ from ..core import Broken, Ctx, Violation
 PROP_FILE = "Properties/C11.v"
 
 TRUSTED = [
-    "translator/c11.py (comparisons of _check_out_fit_ranges / FitRange2D.check / FitRange3D.check and the dispatch of "
-    "check_fit_ranges -> Gen_C11.src_checker; fails closed on any other shape)",
+    "translator/c11.py (fails closed on any other shape): comparisons of _check_out_fit_ranges / FitRange2D.check / "
+    "FitRange3D.check incl. the helpers _bounds/_length and the dispatch order of check_fit_ranges -> Gen_C11.src_checker; "
+    "which sizes ModelFittingDataTree.__init__ passes as rows/cols/readout_times at its two call sites -> src_calls; where "
+    "_configure_weights is called, the shape a scalar weight is expanded to, and whether targets/weights are indexed "
+    "through _target_indexers -> src_weights",
     "correspondence harness: harness/props/c11.py generators (incl. the independent integer computation of the probe's "
-    "simulated frames), harness/drivers/c11.py, probes/verif_probes_c11.py, float.as_integer_ratio() -> Q literals",
+    "simulated frames; the Python mirror of the range verdict only steers the generator and names classes), "
+    "harness/drivers/c11.py, probes/verif_probes_c11.py, float.as_integer_ratio() -> Q literals",
     "modelled, not verified: numpy/numba elementwise float64 arithmetic is exact on the generated small integers and "
-    "dyadics, np.nansum skips NaN, xarray isel = Python slicing, numpy broadcasting of (1, y, x) against (y, x); pygmo "
-    "champion tracking (champion = best individual ever inserted) is a model, observed on real runs only",
+    "dyadics, np.nansum skips NaN, xarray isel = Python slicing (clipping), numpy broadcasting of (1, y, x) against (y, x); "
+    "pygmo champion tracking (champion = best individual ever inserted) is a model, observed on real runs only",
 ]
 
 # ------------------------------------------------------------------------------------------ Coq literals
@@ -952,7 +956,11 @@ def run(ctx: Ctx):
     ctx.trusted += TRUSTED
     ctx.assumptions += [
         "range checker theorems: declared numbers are ordered and non-negative (in_domain); the result range is a "
-        "FitRange3D (what Calibration always builds); open result components are resolved against the target's shape",
+        "FitRange3D (what Calibration always builds); check_fit_ranges resolves open result components against the target's "
+        "size (the only size it is given)",
+        "C11_model_meets_spec_partial: no target without a processor (C11-zip), result range inside the simulated frame and "
+        "open result stops meaning the target's size (C11-F6d), 2-D target range selecting as many readout times as the "
+        "target has (C11-F6e); rectangular arrays without an empty axis",
         "fitness correspondence: integer / dyadic frames (float arithmetic exact); reduced chi squared compared up to "
         "one rounding of the final division (2^-52 relative); the simulated frames come from the probe model "
         "verif_probes_c11.pattern whose formula the harness recomputes independently",
@@ -1018,7 +1026,8 @@ def search(ctx: Ctx):
     r = ctx.rng("search")
     leg_ck(ctx, ck_exhaustive([1, 2, 3]) + ck_random(r, 3000, malformed=False), tag="sck")
     if not new_violations(ctx):
-        leg_fit(ctx, gen_fit(ctx.rng("sfit"), 240, flagged_share=0.1), tag="sfit")
+        leg_fit(ctx, gen_fit_sizes(ctx.rng("sfitsizes"), quick=False) + gen_fit(ctx.rng("sfit"), 240, flagged_share=0.1),
+                tag="sfit")
     ctx.cov["search"] = True
 
 
@@ -1071,24 +1080,31 @@ def replay(ctx: Ctx, rp: dict) -> int:
 
 META = dict(
     level_text=(
-        "Coq theorems (closed under the global context) over (1) the comparisons of the fit-range checker regenerated from "
-        "calibration/util.py on every run: the full soundness/completeness statements (accepted <=> equal extents inside the "
-        "target) are REFUTED with proved witnesses (end points compared instead of extents; absent ranges crash) and the "
-        "strongest true restriction (all stops given, equal starts) is proved for all ranges and sizes; (2) the accumulation "
-        "loop of ModelFittingDataTree.fitness: by induction over the pair list it is the declared sum over all "
-        "(processor, target) pairs with weight k in term k whenever no target is left without a processor (the general "
-        "statement is refuted: zip drops targets), and the single-readout term is the declared term; dropped weights for "
-        "multi-readout targets are a proved witness; (3) champion tracking min(previous, best of the evolution) is "
-        "non-increasing, a lower bound of everything met, and an actually computed value (induction over evolutions). "
-        "The model is tied to the code by evaluating it inside Coq against the real check_fit_ranges (exhaustive per "
-        "dimension for small sizes), the three real fitness functions, problem.fitness(x) on integer-valued probe frames "
-        "(exact), and real tiny calibrations (/champion/fitness non-increasing, last value = problem.fitness(champion) = "
-        "independent numpy recomputation); the implementation's outputs are judged inside Coq against the specification."),
+        "Coq theorems (closed under the global context) over tables regenerated from the source on every run: (1) the "
+        "comparisons of the fit-range checker (calibration/util.py): for all ranges, sizes and readout counts in the domain "
+        "(ordered non-negative numbers, absent components allowed) check_fit_ranges accepts EXACTLY the pairs of equal extent "
+        "with the target range inside the target (C11_checker_sound / _complete / _decides); (2) the sizes the constructor "
+        "passes to it (fitting_datatree.py call sites = sizes of the target data): a target range accepted at construction "
+        "lies inside the target data, so no problem object exists for a range exceeding the target "
+        "(C11_ctor_rejects_exceeding, C11_exceeding_never_optimised); (3) the problem object: whenever problem.fitness "
+        "yields anything it is the declared sum over all (processor, target) pairs of the configured function on "
+        "result[result range], target[target range] with weight k, for 2-D and 3-D target ranges, single- and multi-readout "
+        "targets, no/scalar/file weights (C11_fitness_is_declared, by induction over the pair list; needs #targets <= "
+        "#processors: zip drops targets, refuted in general); (4) the model MEETS the specification used to judge the "
+        "implementation outside the input classes of the three open findings (C11_model_meets_spec_partial; the full "
+        "statement is refuted with witnesses for F6d, F6e, zip); (5) champion tracking min(previous, best of the evolution) "
+        "is non-increasing, a lower bound of everything met and an actually computed value. The model is tied to the code "
+        "by evaluating it inside Coq against the real check_fit_ranges (exhaustive per dimension for small sizes), the "
+        "three real fitness functions, problem.fitness(x) on integer-valued probe frames (exact; targets smaller/larger "
+        "than the frame in rows, columns and readout times) and real tiny calibrations (/champion/fitness non-increasing, "
+        "last value = problem.fitness(champion) = independent numpy recomputation); the implementation's outputs are "
+        "judged inside Coq against the specification."),
     level_note=(
         "Proved for all inputs: statements about the Gallina model. Established by correspondence (= testing): that the "
-        "model's checker/fitness/pairing/weights behave like the Python on the generated cases; pygmo's champion tracking "
-        "and the re-simulation are observed on real runs only. Trusted: Coq kernel + vm_compute, translator/c11.py, the "
-        "harness and driver, numpy/numba/xarray semantics on exact inputs. Seeding of calibration (C04/F1) is not covered."),
-    technique="Coq proof over generated range-checker table + inductive sum/champion theorems + in-Coq correspondence/spec evaluation",
+        "model's checker/constructor/fitness/pairing/weights behave like the Python on the generated cases; pygmo's "
+        "champion tracking and the re-simulation are observed on real runs only (the returned /simulated data cannot be "
+        "computed at all: C11-resim). Trusted: Coq kernel + vm_compute, translator/c11.py, the harness and driver, "
+        "numpy/numba/xarray semantics on exact inputs. Seeding of calibration (C04/F1) is not covered."),
+    technique="Coq proof over generated checker / call-site / weights tables + inductive sum/champion theorems + in-Coq correspondence/spec evaluation",
     design_ref="DESIGN.md section 6, C11",
 )
